@@ -290,7 +290,7 @@ def main(argv=None):
     ev = {
         "property_id": pid, "tier": tier, "seed": seed, "level": level,
         "coverage": {
-            "obligations": len(real_obs), "discharged": discharged + sum(1 for _, o in known_hits if not o.get("bounded") and not o.get("probe")),
+            "obligations": len(real_obs), "discharged": discharged,
             "unproved_sites": [{"obligation": o["name"], "why": o.get("where")} for o in unproved_hits],
             "discharged_by_backend": by_backend,
             "known_finding_obligations": len(known_hits),
@@ -393,6 +393,10 @@ def main(argv=None):
         return 3
     if unproved_hits:
         print(f"OK property={pid}: {discharged} of {len(real_obs)} obligations discharged, {len(unproved_hits)} listed unproved site(s), no violation")
+        return 0
+    kf_real = sum(1 for _, o in known_hits if not o.get("bounded") and not o.get("probe"))
+    if kf_real:
+        print(f"OK property={pid}: {discharged} of {len(real_obs)} obligations discharged, {kf_real} fail as listed known finding(s), no new violation")
         return 0
     print(f"OK property={pid}: all {len(real_obs)} obligations discharged")
     return 0
